@@ -109,7 +109,7 @@ func vfRunConnScenario(cfg vfConnScenarioCfg) (events []map[string]interface{}, 
 	driverTimeout := 40 * time.Millisecond
 	var nmu sync.Mutex
 	withheld := map[int][]vfConnPendingAnswer{} // per stream: answers never sent (unless the id is seen again)
-	var nodeRecv, nodeSent, recvHandled int64
+	var nodeRecv, nodeSent, recvHandled, writesOK int64
 	var awg sync.WaitGroup // answer goroutines of the node
 	nrng := rand.New(rand.NewSource(cfg.Seed ^ 0x5eed)) // used under nmu only
 	node.Handler = func(nc *vfNodeConn, f *vfFrame, q *vfRequest) bool {
@@ -183,6 +183,10 @@ func vfRunConnScenario(cfg vfConnScenarioCfg) (events []map[string]interface{}, 
 			return
 		}
 		switch point {
+		case "x_wend":
+			if err == nil && call != nil && sc.ReqOf(call) > 0 {
+				atomic.AddInt64(&writesOK, 1)
+			}
 		case "r_arm_deliver", "r_arm_timeout", "r_arm_ctx":
 			if call != nil && sc.ReqOf(call) > 0 {
 				atomic.AddInt64(&recvHandled, 1)
@@ -337,8 +341,16 @@ func vfRunConnScenario(cfg vfConnScenarioCfg) (events []map[string]interface{}, 
 
 	// ---- quiescence: every answer the node will ever send has been sent, the receiver has
 	// handled each of them (event-based, not time-based), and the allocator has settled.
-	vfWithin(5*time.Second, awg.Wait)
-	for i := 0; i < 2500 && !conn.Closed(); i++ {
+	// (a) the node has read every frame whose write succeeded, (b) its answer goroutines are done,
+	// (c) the receiver has handled every answer
+	for i := 0; i < 5000 && !conn.Closed(); i++ {
+		if atomic.LoadInt64(&nodeRecv) >= atomic.LoadInt64(&writesOK) {
+			break
+		}
+		time.Sleep(2 * time.Millisecond)
+	}
+	answered, _ := vfWithin(10*time.Second, awg.Wait)
+	for i := 0; i < 5000 && !conn.Closed(); i++ {
 		if atomic.LoadInt64(&recvHandled) >= atomic.LoadInt64(&nodeSent) {
 			break
 		}
@@ -355,7 +367,8 @@ func vfRunConnScenario(cfg vfConnScenarioCfg) (events []map[string]interface{}, 
 		time.Sleep(2 * time.Millisecond)
 	}
 	closed := conn.Closed()
-	settled := atomic.LoadInt64(&recvHandled) >= atomic.LoadInt64(&nodeSent)
+	settled := answered && atomic.LoadInt64(&recvHandled) >= atomic.LoadInt64(&nodeSent) &&
+		atomic.LoadInt64(&nodeRecv) >= atomic.LoadInt64(&writesOK)
 	if closed || settled {
 		tr.Emit("avail", "conn", connID, "avail", conn.AvailableStreams(), "closed", vfB2I(closed), "cap", capacity)
 	} else {
